@@ -8,7 +8,7 @@ for lg in sys.argv[1:]:
     for l in open(lg, errors='replace'):
         m = re.match(r'(C\d\d) rc=(\d+) (\d+)s :: C\d\d tier=thorough seed=(\d+): evaluations=(\d+) .*distinct_nontrivial=(\d+)', l)
         if m and m.group(2) == '0':
-            th.setdefault(m.group(1), []).append((int(m.group(4)), int(m.group(5)), int(m.group(6)), int(m.group(3))))
+            th.setdefault(m.group(1), {})[int(m.group(4))] = (int(m.group(4)), int(m.group(5)), int(m.group(6)), int(m.group(3)))  # the latest run of a seed wins
 print('| | quick (seed 1): cases / distinct non-trivial keys / largest monitor counters / wall | thorough: cases / distinct keys / wall (seeds run) |')
 print('|---|---|---|')
 for f in sorted(glob.glob(here + '/evidence/C*.json')):
@@ -18,6 +18,6 @@ for f in sorted(glob.glob(here + '/evidence/C*.json')):
     cnt = ', '.join('%s=%d' % kv for kv in mc)
     t = ''
     if e['property_id'] in th:
-        rs = sorted(th[e['property_id']])
+        rs = sorted(th[e['property_id']].values())
         t = '%d / %d / %d s (seeds %s)' % (rs[0][1], rs[0][2], rs[0][3], ','.join(str(r[0]) for r in rs))
     print('| %s | %d / %d / %s / %.0f s | %s |' % (e['property_id'], c['evaluations'], c['distinct_nontrivial'], cnt, e['wall_s'], t))
